@@ -126,7 +126,9 @@ fn run_one(env: &Env, idx: u64) -> Value {
                 fo.u64(*t);
             }
             let nontrivial = ex.schedule.context_switches() >= 2 && (st.contended_first_use > 0 || threads_first.len() >= 2 || st.short_reads + st.eintr_reads > 0 || st.probe_yields > 0);
+            let unwound = o.results.iter().flatten().filter(|r| r.contains("PANIC: ")).count();
             rec["nontrivial"] = json!(nontrivial);
+            rec["unwound"] = json!(unwound);
             rec["stats"] = json!({
                 "probe_hits": st.probe_hits, "probe_yields": st.probe_yields, "lazy_forces": st.lazy_forces, "once_calls": st.once_calls,
                 "tables_first_used": st.first_use_order.len(), "first_use_threads": threads_first.len(), "contended": st.contended_first_use,
@@ -359,7 +361,7 @@ fn batch(mode: &'static str, tier: &str) -> i32 {
     }
     agg.probes.declare(oh_verif_rt::PROBE_SITES);
     agg.probes.declare(&["executions_with_contended_first_use", "executions_with_first_use_on_2plus_threads", "probe_yields_taken", "lazy_forces", "once_calls", "tables_first_used"]);
-    agg.faults.declare(&["contended_first_use", "decoder_short_read", "decoder_interrupted_read"]);
+    agg.faults.declare(&["contended_first_use", "decoder_short_read", "decoder_interrupted_read", "evaluation_unwound_and_caught"]);
     let wall = t0.elapsed().as_secs_f64();
     let pools_info = pools_info.into_inner().unwrap().unwrap_or(Value::Null);
     let part = json!({
@@ -385,7 +387,7 @@ fn batch(mode: &'static str, tier: &str) -> i32 {
         },
         components: json!({
             "real": ["opening-hours, opening-hours-syntax, compact-calendar (guard on: only LazyLock/Once swapped, probes and SimRead added)", "flate2/miniz_oxide inflater", "chrono, chrono-tz, tzf-rs, country-boundaries, sunrise"],
-            "stub": ["std::sync::LazyLock and std::sync::Once -> shuttle-backed shims (per-execution storage)", "threads -> shuttle threads; channel -> shuttle::sync::mpsc", "the holiday decoder's reader is wrapped by SimRead (transparent faults only)"],
+            "stub": ["every std::sync / std::thread / thread_local! use in opening-hours and opening-hours-syntax -> shuttle-backed primitives (generated source tree; see shim_level)", "client threads -> shuttle threads; hand-off channel -> shuttle::sync::mpsc", "the holiday decoder's reader is wrapped by SimRead (transparent faults only)"],
         }),
         assumptions: vec![
             "the shim's LazyLock/Once semantics match std's (initialise exactly once, block concurrent callers)".into(),
@@ -431,6 +433,7 @@ fn fold(rec: &Value, agg: &mut Agg, first_use: &Mutex<std::collections::BTreeSet
         agg.faults.add("contended_first_use", g("contended"));
         agg.faults.add("decoder_short_read", g("short_reads"));
         agg.faults.add("decoder_interrupted_read", g("eintr_reads"));
+        agg.faults.add("evaluation_unwound_and_caught", rec["unwound"].as_u64().unwrap_or(0));
         agg.sim.add("decoder_read_calls", g("reads"));
         agg.states.insert(g("state_sig"));
         first_use.lock().unwrap().insert(g("first_use_sig"));
